@@ -1343,6 +1343,11 @@ pub struct ParserState {
     switch_max_key_timing: Cell<u16>,
     multi_action_nest_count: Cell<u16>,
     action_nest_count: Cell<u16>,
+    /// The deepest action nesting reached since it was last reset; used to learn how deeply the
+    /// action of an alias is nested.
+    action_nest_max: Cell<u16>,
+    /// How deeply the action of each alias is nested, including the aliases it uses.
+    alias_nesting: HashMap<String, u16>,
     pctx: ParserContext,
     pub lsp_hints: RefCell<LspHints>,
     a: Arc<Allocations>,
@@ -1375,6 +1380,8 @@ impl Default for ParserState {
             switch_max_key_timing: Cell::new(0),
             multi_action_nest_count: Cell::new(0),
             action_nest_count: Cell::new(0),
+            action_nest_max: Cell::new(0),
+            alias_nesting: Default::default(),
             lsp_hints: Default::default(),
             a: unsafe { Allocations::new() },
             pctx: ParserContext::default(),
@@ -1685,7 +1692,10 @@ fn read_alias_name_action_pairs<'a>(
             Some(v) => v,
             None => bail_expr!(alias_expr, "Found alias without an action - add an action"),
         };
+        s.action_nest_max.set(0);
         let action = parse_action(action, s)?;
+        s.alias_nesting
+            .insert(alias.into(), s.action_nest_max.get());
         if s.aliases.insert(alias.into(), action).is_some() {
             bail_expr!(alias_expr, "Duplicate alias: {}", alias);
         }
@@ -1718,6 +1728,7 @@ fn parse_nested<T>(
         );
     }
     s.action_nest_count.set(depth + 1);
+    s.action_nest_max.set(s.action_nest_max.get().max(depth + 1));
     let res = parse();
     s.action_nest_count.set(depth);
     res
@@ -1855,6 +1866,16 @@ fn parse_action_atom(ac_span: &Spanned<String>, s: &ParserState) -> Result<&'sta
     if let Some(alias) = ac.strip_prefix('@') {
         return match s.aliases.get(alias) {
             Some(ac) => {
+                // The action of the alias is used as it is: its nesting adds to the nesting here.
+                let nesting = (s.action_nest_count.get())
+                    .saturating_add(s.alias_nesting.get(alias).copied().unwrap_or(0));
+                if nesting > MAX_ACTION_NESTING {
+                    bail_span!(
+                        ac_span,
+                        "Actions are nested more than {MAX_ACTION_NESTING} levels deep, counting the actions of aliases"
+                    );
+                }
+                s.action_nest_max.set(s.action_nest_max.get().max(nesting));
                 #[cfg(feature = "lsp")]
                 s.lsp_hints
                     .borrow_mut()
